@@ -1,21 +1,22 @@
 #!/bin/sh
-# tools/seed_confirm.sh <PID> [tag]: confirm a sub-agent's seeded change in its scratch worktree and store it under seeded/.
+# tools/seed_confirm.sh <PID> [tag]: confirm a sub-agent's seeded change in its scratch worktree and store it under seeded/<tag>.
 PID="$1"; TAG="${2:-$1}"; WT=/tmp/seedwork/wt_$TAG; OUT=/tmp/seedwork/out_$TAG
 [ -f "$OUT/patch.diff" ] || { echo "no patch"; exit 2; }
 cd "$WT" || exit 2
 git checkout -q -- . ; git clean -fdq
-PYTHONPATH=$WT /venv/bin/python "$OUT/demo.py" >/tmp/seedwork/demo_clean_$TAG.log 2>&1; c=$?
+PYTHONPATH=$WT timeout 600 /venv/bin/python "$OUT/demo.py" >/tmp/seedwork/demo_clean_$TAG.log 2>&1; c=$?
 git apply "$OUT/patch.diff" || { echo "patch does not apply"; exit 2; }
-PYTHONPATH=$WT /venv/bin/python "$OUT/demo.py" >/tmp/seedwork/demo_patched_$TAG.log 2>&1; p=$?
-PYTHONPATH=$WT /venv/bin/python -m pytest -q -p no:cacheprovider --timeout=900 tests/functional --deselect tests/functional/registration --deselect tests/functional/subcommands -q >/tmp/seedwork/suite_$TAG.log 2>&1; s=$?
-echo "$TAG: demo clean=$c patched=$p suite=$s ($(tail -1 /tmp/seedwork/suite_$TAG.log))"
+PYTHONPATH=$WT timeout 600 /venv/bin/python "$OUT/demo.py" >/tmp/seedwork/demo_patched_$TAG.log 2>&1; p=$?
+/venv/bin/python /verif/tools/suite_check.py "$WT" >/tmp/seedwork/suite_$TAG.log 2>&1; s=$?
+git checkout -q -- . ; git clean -fdq
+echo "$TAG: demo clean=$c patched=$p suite=$s ($(head -1 /tmp/seedwork/suite_$TAG.log))"
 if [ $c = 0 ] && [ $p != 0 ] && [ $s = 0 ]; then
   D=/verif/seeded/$TAG; mkdir -p $D; cp "$OUT/patch.diff" "$OUT/demo.py" $D/
-  /venv/bin/python - "$OUT/meta.json" "$D/meta.json" "$PID" <<'PY'
+  /venv/bin/python - "$OUT/meta.json" "$D/meta.json" "$PID" "$(git rev-parse --short HEAD)" <<'PY'
 import json,sys
 m=json.load(open(sys.argv[1])); m["property"]=sys.argv[3]
-m["confirmed"]={"demo_on_unchanged_code":"exit 0 (PASS)","demo_with_patch":"exit 1 (FAIL)","existing_suite_with_patch":"passes (tests/functional minus registration/subcommands, which need network-installed projects)",
- "ran":"tools/seed_confirm.sh in a scratch worktree of /repo at 52895c8"}
+m["confirmed"]={"demo_on_unchanged_code":"exit 0 (PASS)","demo_with_patch":"non-zero exit (FAIL)","existing_suite_with_patch":"all 313 baseline tests pass (tools/suite_check.py)",
+ "ran":"tools/seed_confirm.sh in a scratch worktree of /repo at "+sys.argv[4]}
 json.dump(m,open(sys.argv[2],"w"),indent=1)
 PY
   echo stored
